@@ -1110,6 +1110,121 @@ NP.update({"torch.tensor": t_tensor, "torch.cat": t_cat, "torch.stack": t_stack,
            "torch.eye": t_eye, "torch.unique": t_unique, "torch.einsum": t_einsum})
 NP["scipy.optimize.minimize"] = sp_minimize
 NP["sklearn.metrics.pairwise.euclidean_distances"] = sk_euclidean
+def np_clip(ex, st, args, kwargs):
+    a = args[0]
+    lo = kwargs.get("a_min", args[1] if len(args) > 1 else None)
+    hi = kwargs.get("a_max", args[2] if len(args) > 2 else None)
+    r = a
+    if lo is not None:
+        r = L.binop("max", r, lo)
+    if hi is not None:
+        r = L.binop("min", r, hi)
+    return r
+
+
+def np_einsum(ex, st, args, kwargs):
+    """Generic einsum on arrays of concrete shape: explicit sums of products."""
+    spec = args[0]
+    if not isinstance(spec, str) or "->" not in spec or "." in spec:
+        raise Unsupported("einsum specification %r" % (spec,))
+    ins, out = spec.replace(" ", "").split("->")
+    ops = [L.as_arr(x) for x in args[1:]]
+    subs = ins.split(",")
+    if len(subs) != len(ops):
+        raise L.ShapeError("einsum operands")
+    dims = {}
+    for sub, op in zip(subs, ops):
+        if len(sub) != op.ndim:
+            raise L.ShapeError("einsum subscripts")
+        for ch, n in zip(sub, op.shape):
+            if dims.setdefault(ch, n) != n:
+                raise L.ShapeError("einsum dimension mismatch")
+    summed = [ch for ch in dims if ch not in out]
+    oshape = tuple(dims[ch] for ch in out)
+    res = []
+    for oidx in itertools.product(*[range(n) for n in oshape]):
+        env = dict(zip(out, oidx))
+        acc = None
+        for sidx in itertools.product(*[range(dims[ch]) for ch in summed]):
+            env.update(zip(summed, sidx))
+            term = None
+            for sub, op in zip(subs, ops):
+                v = op.a[tuple(env[ch] for ch in sub)]
+                term = v if term is None else V.mul(term, v)
+            acc = term if acc is None else V.add(acc, term)
+        res.append(acc if acc is not None else Fraction(0))
+    kind = "f"
+    if not oshape:
+        return res[0]
+    return L.mk(res, oshape, kind)
+
+
+def np_outer(ex, st, args, kwargs):
+    a, b = L.as_arr(args[0]), L.as_arr(args[1])
+    fa, fb = a.flat(), b.flat()
+    return L.mk([V.mul(x, y) for x in fa for y in fb], (len(fa), len(fb)), L.join_kind(a.kind, b.kind))
+
+
+def np_prod(ex, st, args, kwargs):
+    a = L.as_arr(args[0])
+    one = Fraction(1) if a.kind == "f" else 1
+    return L.reduce(a, V.mul, one, _axis(args, kwargs))
+
+
+def np_cumsum(ex, st, args, kwargs):
+    a = L.as_arr(args[0])
+    if a.ndim != 1 or _axis(args, kwargs) not in (None, 0, -1):
+        raise Unsupported("cumsum on nd")
+    out, acc = [], None
+    for x in a.flat():
+        acc = x if acc is None else V.add(acc, x)
+        out.append(acc)
+    return L.mk(out, a.shape, a.kind)
+
+
+def np_isclose(ex, st, args, kwargs):
+    L.used("numpy.isclose: |a-b| <= atol + rtol*|b| elementwise")
+    rtol = kwargs.get("rtol", Fraction(1, 100000))
+    atol = kwargs.get("atol", Fraction(1, 100000000))
+    return L.elementwise(lambda x, y: V.le(V.sabs(V.sub(x, y)), V.add(atol, V.mul(rtol, V.sabs(y)))), args[0], args[1], kind="b")
+
+
+def np_sign(ex, st, args, kwargs):
+    f = lambda x: V.ite(V.gt(x, 0), 1, V.ite(V.lt(x, 0), -1, 0))
+    return L.map_scalar_or_arr(f, args[0], kind="f")
+
+
+def np_square(ex, st, args, kwargs):
+    return L.binop("mul", args[0], args[0])
+
+
+def np_count_nonzero(ex, st, args, kwargs):
+    a = L.as_arr(args[0])
+    return L.np_sum(L.elementwise(lambda v: v if V.is_bool(v) else V.ne(v, 0), a, kind="b"), _axis(args, kwargs))
+
+
+def np_sort(ex, st, args, kwargs):
+    a = L.as_arr(args[0])
+    if a.ndim != 1:
+        raise Unsupported("sort on nd")
+    idx = np_argsort(ex, st, [a], {})
+    return arr_getitem(ex, st, a, idx)
+
+
+NP.update({"numpy.clip": np_clip, "numpy.einsum": np_einsum, "numpy.outer": np_outer, "numpy.prod": np_prod,
+           "numpy.cumsum": np_cumsum, "numpy.isclose": np_isclose, "numpy.sign": np_sign, "numpy.square": np_square,
+           "numpy.count_nonzero": np_count_nonzero, "numpy.sort": np_sort, "numpy.float_power": np_power,
+           "numpy.multiply": lambda ex, st, a, k: L.binop("mul", a[0], a[1]), "numpy.add": lambda ex, st, a, k: L.binop("add", a[0], a[1]),
+           "numpy.subtract": lambda ex, st, a, k: L.binop("sub", a[0], a[1]), "numpy.divide": lambda ex, st, a, k: L.binop("div", a[0], a[1]),
+           "numpy.negative": lambda ex, st, a, k: L.unary("neg", a[0]), "numpy.logical_and": lambda ex, st, a, k: L.binop("and", a[0], a[1]),
+           "numpy.logical_or": lambda ex, st, a, k: L.binop("or", a[0], a[1]), "numpy.logical_not": lambda ex, st, a, k: L.unary("not", a[0]),
+           "numpy.greater": lambda ex, st, a, k: L.binop("gt", a[0], a[1]), "numpy.less": lambda ex, st, a, k: L.binop("lt", a[0], a[1]),
+           "numpy.greater_equal": lambda ex, st, a, k: L.binop("ge", a[0], a[1]), "numpy.less_equal": lambda ex, st, a, k: L.binop("le", a[0], a[1]),
+           "numpy.ones_like": lambda ex, st, a, k: L.const_array(L.as_arr(a[0]).shape, Fraction(1) if L.as_arr(a[0]).kind == "f" else 1, L.as_arr(a[0]).kind),
+           "numpy.full_like": lambda ex, st, a, k: L.const_array(L.as_arr(a[0]).shape, a[1], L.as_arr(a[0]).kind),
+           "numpy.identity": np_eye, "numpy.ravel": lambda ex, st, a, k: SArr(L.as_arr(a[0]).a.reshape(-1), L.as_arr(a[0]).kind),
+           "numpy.linalg.multi_dot": None})
+del NP["numpy.linalg.multi_dot"]
 NP["numpy.argsort"] = np_argsort
 NP["numpy.argpartition"] = np_argpartition
 NP["itertools.product"] = it_product
@@ -1223,6 +1338,14 @@ def arr_method(ex, st, a, name, args, kwargs):
         return np_dot(ex, st, [a, args[0]], {})
     if name == "repeat":
         return np_repeat(ex, st, [a] + list(args), kwargs)
+    if name == "clip":
+        return np_clip(ex, st, [a] + list(args), kwargs)
+    if name == "prod":
+        return np_prod(ex, st, [a] + list(args), kwargs)
+    if name == "cumsum":
+        return np_cumsum(ex, st, [a] + list(args), kwargs)
+    if name == "swapaxes":
+        return a.view(_np.swapaxes(a.a, args[0], args[1]))
     if name == "to":
         return a
     if name == "numpy":
